@@ -532,15 +532,21 @@ func (v *VC) framedHavoc(name string, ct *Contract, pre *SpecEnv, heap *Heap) {
 		t := v.ev(mustParse(src), pre)
 		return fmt.Sprintf("(root %s)", ptrOf(v.sortTV(t), t.T))
 	}
-	var kinds map[string]bool
-	if len(ct.ModKinds) > 0 {
-		kinds = map[string]bool{}
-		for _, k := range ct.ModKinds {
-			kinds[k] = true
+	var mods []modTerm
+	var desc []string
+	for _, c := range ct.Mods {
+		m := modTerm{object: rootOfExpr(c.Object), younger: rootOfExpr(c.Younger)}
+		if len(c.Kinds) > 0 {
+			m.kinds = map[string]bool{}
+			for _, k := range c.Kinds {
+				m.kinds[k] = true
+			}
 		}
+		mods = append(mods, m)
+		desc = append(desc, fmt.Sprintf("{object %s younger %s kinds %v}", c.Object, c.Younger, c.Kinds))
 	}
-	v.note("assumed frame of %s: modifies younger(%s) object(%s) kinds%v only", name, ct.ModYounger, ct.ModObject, ct.ModKinds)
-	v.havocFramed(heap, false, rootOfExpr(ct.ModYounger), rootOfExpr(ct.ModObject), kinds)
+	v.note("assumed frame of %s: writes only %s (and what it allocates)", name, strings.Join(desc, " or "))
+	v.havocFramed(heap, false, mods)
 }
 
 func mustParse(src string) SExpr {
@@ -616,7 +622,7 @@ func (v *VC) modularCall(callee *ssa.Function, ct *Contract, args []string, bind
 		v.oblige("call("+callee.Name()+").requires", r.Label, g, v.evalSpec(r, pre), pos, r.Src)
 		v.assume(g, v.evalSpec(r, pre))
 	}
-	if ct.ModYounger != "" || ct.ModObject != "" || len(ct.ModKinds) > 0 {
+	if len(ct.Mods) > 0 {
 		v.framedHavoc(shortKey(fnKey(callee)), ct, pre, heap)
 	} else if !ct.ModNothing {
 		v.havocAll(heap, false)
@@ -718,7 +724,7 @@ func (v *VC) modularSig(name string, sig *types.Signature, ct *Contract, args []
 		v.oblige("call("+name+").requires", r.Label, g, v.evalSpec(r, pre), pos, r.Src)
 		v.assume(g, v.evalSpec(r, pre))
 	}
-	if ct.ModYounger != "" || ct.ModObject != "" || len(ct.ModKinds) > 0 {
+	if len(ct.Mods) > 0 {
 		v.framedHavoc(name, ct, pre, heap)
 	} else if !ct.ModNothing {
 		v.havocAll(heap, false)
